@@ -236,7 +236,9 @@ func mergeConfigAppendArr(opts *options, to, from *Config) Error {
 }
 
 func mergeValues(opts *options, old, v value) (value, Error) {
-	if old == nil {
+	// nothing there, or an explicit null (which reads as an empty object, but
+	// is none): the new value is taken as it is
+	if isNil(old) {
 		return v, nil
 	}
 
